@@ -22,6 +22,16 @@
 (*         (override = DecryptOptions.KeyName of that Decrypt call)           *)
 (*  dec    by in {"real","ref"}, override, n, equal,                          *)
 (*         term in {"eof","err","decrypt-err"}                                *)
+(*  segn   dir in {"enc","dec"}, hi, lo, last, opens, same, plainOK            *)
+(*         one segment function called with an ARBITRARY segment number        *)
+(*         N = hi * 65536 + lo (two 16-bit halves: TLC integers are 32-bit     *)
+(*         signed).  dir = "enc": the real segment encryptor sealed a chunk at *)
+(*         (N, last); opens = the positions [hi, lo, last] of the candidate    *)
+(*         set under which the README opener opens the result; same <=> the    *)
+(*         bytes equal the README sealing at (N, last).  dir = "dec": a chunk  *)
+(*         sealed by the README implementation at (N, last); opens = the       *)
+(*         positions (here: its own) at which the real decryptor opened it.    *)
+(*         (reset.producer = "segfn" for these runs)                           *)
 (*  end                                                                       *)
 EXTENDS Naturals, Sequences
 
@@ -51,7 +61,7 @@ ChunkLen(len, S, i) == Min(len, (i + 1) * S) - i * S          \* i is 0-based
 ChunkLast(len, S, i) == (i + 1) * S >= len
 PayloadLen(len, S, tag) == len + tag * NumChunks(len, S)
 
-CReset(e) == [bad |-> FALSE, why |-> "", o |-> e, wrapSeen |-> FALSE, docSeen |-> FALSE, segs |-> 0, decs |-> 0]
+CReset(e) == [bad |-> FALSE, why |-> "", o |-> e, wrapSeen |-> FALSE, docSeen |-> FALSE, segs |-> 0, decs |-> 0, segns |-> 0]
 Dummy == CReset([len |-> 0, S |-> 1, tag |-> 0, cipher |-> "", alg |-> "AES", keyName |-> "k", decKeyName |-> "",
                  omit |-> FALSE, producer |-> "real"])
 
@@ -104,8 +114,24 @@ CDec(c, e) ==
   ELSE IF ~e.equal \/ e.n # c.o.len THEN Bad(who \o " returned other bytes than the plaintext")
   ELSE [c EXCEPT !.decs = @ + 1]
 
+(* README: nonce = nonce_prefix || i (32-bit big-endian) || last_segment, for EVERY i in 0..2^32-1: segment i is   *)
+(* sealed under Nonce(prefix, i, last_i) and under no other counter / flag                                        *)
+CSegN(c, e) ==
+  LET own == [hi |-> e.hi, lo |-> e.lo, last |-> e.last]
+      S   == {e.opens[j] : j \in 1..Len(e.opens)} IN
+  IF e.dir = "enc" THEN
+       IF own \notin S THEN Bad("segment N is not sealed under Nonce(prefix, N, last)")
+       ELSE IF S # {own} THEN Bad("segment N also opens under another counter or last flag")
+       ELSE IF ~e.same THEN Bad("sealed segment N differs from the README sealing")
+       ELSE IF ~e.plainOK THEN Bad("segment N does not hold the chunk")
+       ELSE [c EXCEPT !.segns = @ + 1]
+  ELSE IF own \notin S THEN Bad("real decryptor does not open a README-sealed segment N")
+  ELSE IF ~e.plainOK THEN Bad("real decryptor returned other bytes for segment N")
+  ELSE [c EXCEPT !.segns = @ + 1]
+
 CEnd(c) ==
-  IF ~c.docSeen THEN Bad("no document was produced")
+  IF c.o.producer = "segfn" THEN (IF c.segns = 0 THEN Bad("no segment function call recorded") ELSE c)
+  ELSE IF ~c.docSeen THEN Bad("no document was produced")
   ELSE IF c.segs # NumChunks(c.o.len, c.o.S) THEN Bad("fewer segments than Chunks(len,S)")
   ELSE IF c.decs = 0 THEN Bad("document was never decrypted")
   ELSE c
@@ -117,6 +143,7 @@ CNext(c, e) ==
          [] e.ev = "encfail" -> Bad("Encrypt failed with valid options and a clean source")
          [] e.ev = "doc"    -> CDoc(c, e)
          [] e.ev = "seg"    -> CSeg(c, e)
+         [] e.ev = "segn"   -> CSegN(c, e)
          [] e.ev = "unwrap" -> CUnwrap(c, e)
          [] e.ev = "dec"    -> CDec(c, e)
          [] e.ev = "end"    -> CEnd(c)
